@@ -43,7 +43,7 @@ def anchors():
 
 def gen_cases(tier, seed):
     r = gen.rng(seed, "c04")
-    n = 160 if tier == "quick" else 9000
+    n = 230 if tier == "quick" else 9000
     nt, ni = len(thermo_alphabet()), len(interp_alphabet())
     for fam, na, sources in (("thermo", nt, ["synthetic", "n77"] if tier == "quick" else ["synthetic", "n77", "synthetic", "n77", "synthetic"]), ("interp", ni, ["synthetic"] if tier == "quick" else ["synthetic", "n77", "co2"])):
         for k, src in enumerate(sources):
@@ -797,9 +797,14 @@ def finalize(ctx):
     q = ctx.tables.get("queries", {})
     if sum(q.values()) < 600:
         reasons.append("fewer than 600 queries judged")
-    for need in ("loading_at", "pressure_at", "spreading_pressure_at", "pressure", "loading", "to_json", "to_csv", "to_aif", "area_BET", "t_plot", "model_iso", "enthalpy_sorption_whittaker", "iast_point"):
+    for need in ("loading_at", "pressure_at", "spreading_pressure_at", "pressure", "loading", "to_json", "to_csv", "to_aif", "model_iso", "enthalpy_sorption_whittaker", "iast_point"):
         if q.get(need, 0) < 2:
             reasons.append("query %s issued fewer than 2 times" % need)
+    # (the characterisation query of a step is drawn at random from nine kinds: the requirement is on the family, so that it does
+    # not depend on the seed which of them happen to be drawn)
+    char = {k_: q.get(k_, 0) for k_ in ("area_BET", "area_langmuir", "t_plot", "dr_plot", "da_plot", "initial_henry_slope", "initial_henry_virial", "initial_enthalpy_point", "alpha_s")}
+    if sum(char.values()) < 12 or sum(1 for v_ in char.values() if v_) < 4:
+        reasons.append("fewer than 12 characterisation queries / fewer than 4 kinds of them: %s" % char)
     if sum(ctx.tables.get("twin_comparisons", {}).values()) < 400:
         reasons.append("fewer than 400 fresh-object twin comparisons")
     for label, (hit, tot) in ctx.reach.items():
